@@ -431,8 +431,8 @@ RECOMPUTED = {
     ('Spectra::TridiagEigen', 'compute'): {},
     ('Spectra::UpperHessenbergSchur', 'compute'): {},
     ('Spectra::UpperHessenbergEigen', 'compute'): {
-        ('Spectra::UpperHessenbergEigen', 'm_matT'): 'swapped with the Schur factor just recomputed (m_schur.m_T is must-killed first; checked)',
-        ('Spectra::UpperHessenbergEigen', 'm_eivec'): 'swapped with the Schur vectors just recomputed (m_schur.m_U is must-killed first; checked)',
+        ('Spectra::UpperHessenbergEigen', 'm_matT'): 'on the path that swaps: swapped with the Schur factor just recomputed (the recomputation dominates the swap; checked); on the zero-matrix path: resized and set as a whole',
+        ('Spectra::UpperHessenbergEigen', 'm_eivec'): 'as m_matT',
         ('Spectra::UpperHessenbergEigen', 'm_eivalues'): 'resized to n; entries i (and i+1 for a pair) are written for every i by the block scan'},
     ('Spectra::DenseSymShiftSolve', 'set_shift'): {
         ('Spectra::BKLDLT', 'm_data'): 'see BKLDLT::compute'},
@@ -452,7 +452,7 @@ RECOMPUTED = {
 # fields whose whole-object kill in the member is REQUIRED (deleting the reset leaves state of the previous factorization behind)
 RECOMPUTE_MUST_KILL = {
     ('Spectra::BKLDLT', 'compute'): ['m_perm', 'm_permc', 'm_colptr', 'm_n', 'm_info', 'm_computed'],
-    ('Spectra::UpperHessenbergEigen', 'compute'): ['m_schur.m_T', 'm_schur.m_U', 'm_n'],
+    ('Spectra::UpperHessenbergEigen', 'compute'): ['m_n'],
 }
 
 
@@ -476,6 +476,12 @@ def recompute_complete(ctx, rule='recompute-rebuilds-what-it-reads'):
                     exc.append('.'.join(p))
                     continue
                 bad.append('.'.join(p) + ('' if c != 'unknown' else ' (unresolved)'))
+            if (tq, meth) == ('Spectra::UpperHessenbergEigen', 'compute'):
+                # every swap with the inner Schur object is dominated by that object's compute()
+                for x in fn.walk():
+                    if x['k'] == 'CXXMemberCallExpr' and x.get('callee') in ('swap_T', 'swap_U'):
+                        if not paths.dominated_by(fn, fn.pos_of(x), lambda n_: n_['k'] == 'CXXMemberCallExpr' and n_.get('callee') == 'compute' and n_.get('cls') == 'Spectra::UpperHessenbergSchur'):
+                            bad.append('%s (swapped in without recomputing the Schur factor first)' % fn.s(x['id'])[:40])
             for need in RECOMPUTE_MUST_KILL.get((tq, meth), []):
                 if not covered(tuple(need.split('.')), mk):
                     bad.append('%s (not overwritten as a whole on every normal path)' % need)
